@@ -224,15 +224,60 @@ Definition announce_eqb (a b : announce) : bool :=
 Definition has_announce (a : announce) (fs : list fact) : bool :=
   existsb (fun f => match f_stmt f with SAnnounce b => announce_eqb a b | _ => false end) fs.
 
+(* ------------------------------------------------------------------ the last handlers of the old instance record too
+
+   OnTerminate / the instance's own OnTerminated are ordinary handlers: an actor may record an event in them (a "closed"
+   marker, a final counter). They run INSIDE the routine ([SHandler], before [SNewInstance] in the restart routine), so a
+   synchronous persist that comes before one of them writes a journal that misses what that handler records — the event is
+   lost at a termination (the context dies) and dropped at a restart (Load replaces the journal). The routine is therefore
+   also required to run no handler of the old instance after its LAST synchronous persist. *)
+Definition is_sync (s : stmt) : bool := match s with SPersist => true | _ => false end.
+Definition is_handler (s : stmt) : bool := match s with SHandler => true | _ => false end.
+
+(* the statements the OLD instance is still installed for *)
+Fixpoint old_part (p : list stmt) : list stmt :=
+  match p with
+  | [] => []
+  | SNewInstance :: _ => []
+  | s :: r => s :: old_part r
+  end.
+
+(* what follows the last synchronous persist (the whole list if there is none) *)
+Fixpoint after_last_persist (l : list stmt) : list stmt :=
+  match l with
+  | [] => []
+  | s :: r => if existsb is_sync r then after_last_persist r else if is_sync s then r else l
+  end.
+
+Definition handlers_recorded (p : list stmt) : bool :=
+  negb (existsb is_handler (after_last_persist (old_part p))).
+
+(* sequential reading of the routine for that question: [rec k] = the events the k-th handler of the old instance records;
+   result = (state of the old instance when the new one is installed / the routine ends, journal handed to the last Save) *)
+Fixpoint hexec (rec : nat -> list Z) (p : list stmt) (k : nat) (v saved : list Z) : list Z * list Z :=
+  match p with
+  | [] => (v, saved)
+  | SNewInstance :: _ => (v, saved)
+  | SHandler :: r => hexec rec r (S k) (v ++ rec k) saved
+  | SPersist :: r => hexec rec r k v v
+  | _ :: r => hexec rec r k v saved
+  end.
+
+(* the seeded shape: the restart routine persists first and lets the old instance handle its last two messages afterwards *)
+Definition restart_persist_before_last_handlers : list stmt :=
+  [SGuard; SPersist; SNewInstance; SHandler; SHandler; SOther; SOther; SStatus; SOther; SOther; SOther; SAnnounce ALaunch; SOther].
+Definition restart_persist_before_last_handlers' : list stmt :=
+  [SGuard; SPersist; SHandler; SHandler; SOther; SNewInstance; SOther; SStatus; SOther; SOther; SOther; SAnnounce ALaunch; SOther].
+
 (* tryTerminated of the tree under test: every way the end becomes observable is found (otherwise the translator is
    blind to a reworded source), persists are unconditional, and the order is safe *)
 Definition term_order_ok (fs : list fact) : bool :=
-  persists_unconditional fs && order_safe (prog_of fs) &&
+  handlers_recorded (prog_of fs) && persists_unconditional fs && order_safe (prog_of fs) &&
   has_announce AUnregister fs && has_announce AWatchers fs && has_announce AParent fs && has_announce AClosed fs.
 
 (* tryRestarted: the launch of the new instance is found (posted or inline) *)
 Definition restart_order_ok (fs : list fact) : bool :=
-  persists_unconditional fs && order_safe (prog_of fs) && (has_announce ALaunch fs || has_announce ALaunchInline fs).
+  handlers_recorded (prog_of fs) && persists_unconditional fs && order_safe (prog_of fs) && (has_announce ALaunch fs || has_announce ALaunchInline fs).
 
 (* the statements to name when the obligation is broken (lines): every persist that is conditional, `go`, at/after an
    immediate announce, or deferred in a routine that has an immediate announce after it; every immediate announce that
@@ -267,9 +312,9 @@ Definition order_offenders (fs : list fact) : list nat := offenders_from (any_sy
 
 Definition src_terminate : list stmt :=
   [SGuard;                       (* if len(ctx.children) > 0 { return } *)
-   SPersist;                     (* ctx.internalPersistence() *)
    SStatus; SGuard;              (* if !ctx.status.CompareAndSwap(terminating, terminated) { return } *)
    SOther; SHandler;             (* OnTerminated handled by the dying instance *)
+   SPersist;                     (* ctx.internalPersistence(): after the last handler (fix: it used to come first) *)
    SOther;                       (* subscriptions released *)
    SAnnounce AUnregister;        (* ctx.system.rc.Unregister(ctx.sender, ctx.ref) *)
    SOther; SOther; SOther;       (* scheduler closed, log line, notifyMessage *)
